@@ -21,6 +21,7 @@ type Clause struct {
 	Expr  ast.Expr
 	Props []string // nil = inherit the function's props
 	Line  int
+	Trusted bool // postcondition assumed at call sites but not proved for the function itself (listed as an assumption)
 }
 
 type LoopSpec struct {
@@ -60,6 +61,7 @@ type Contract struct {
 	ModAll   bool
 	AbstractFloats bool // float operations are uninterpreted functions (same symbols in code and spec)
 	Notes        []string // assumptions stated by the contract author, copied into the evidence
+	SplitReturns bool // check the postconditions once per path into a shared return block (no heap merge)
 	StringsExact bool // model the contents of concatenated strings (quantified axioms)
 	Handler  bool // deferred recover handler: recover() yields an arbitrary value
 	RecoverBy string // callee key of the deferred recover handler: runtime panics after its Defer are converted to errors
@@ -409,7 +411,7 @@ func (sp *Specs) loadSpecFile(path, pkgPath string) error {
 				return fail(err)
 			}
 			curTable.Clauses = append(curTable.Clauses, c)
-		case "requires", "ensures", "panics", "invariant", "modifies", "decreases":
+		case "requires", "ensures", "trustedensures", "panics", "invariant", "modifies", "decreases":
 			if cur == nil {
 				return fail(fmt.Errorf("%s outside func", word))
 			}
@@ -449,6 +451,9 @@ func (sp *Specs) loadSpecFile(path, pkgPath string) error {
 				cur.Requires = append(cur.Requires, c)
 			case "ensures":
 				cur.Ensures = append(cur.Ensures, c)
+			case "trustedensures":
+				c.Trusted = true
+				cur.Ensures = append(cur.Ensures, c)
 			case "panics":
 				cur.Panics = append(cur.Panics, c)
 			case "invariant":
@@ -468,6 +473,8 @@ func (sp *Specs) loadSpecFile(path, pkgPath string) error {
 				return fail(fmt.Errorf("note outside func"))
 			}
 			cur.Notes = append(cur.Notes, rest)
+		case "splitreturns":
+			cur.SplitReturns = true
 		case "stringsexact":
 			cur.StringsExact = true
 		case "handler":
